@@ -11,6 +11,9 @@ CFGS = {
               Types="AllTypes", lenMode="edges", ws=False),
     "Aw": dict(RtmpSubs=["r1"], FlvSubs=["f1"], GopNumR=1, GopNumF=1, CapR=1, CapF=0, Mw=0, Sz=[1], Record=True,
                Types="AllTypes", lenMode="edges", ws=True),
+    # the HTTP-FLV server configured for https only: the same consumers, the same rules
+    "Ah": dict(RtmpSubs=["r1"], FlvSubs=["f1"], GopNumR=1, GopNumF=1, CapR=1, CapF=0, Mw=0, Sz=[1], Record=True,
+               Types="AllTypes", lenMode="edges", ws=False, httpsOnly=True),
     "B": dict(RtmpSubs=["r1", "r2"], FlvSubs=[], GopNumR=0, GopNumF=0, CapR=0, CapF=0, Mw=5, Sz=[1, 4], Record=False,
               Types="Core", lenMode="units", ws=False),
     "C": dict(RtmpSubs=["r1"], FlvSubs=["f1"], GopNumR=2, GopNumF=0, CapR=0, CapF=0, Mw=3, Sz=[1], Record=False,
@@ -73,7 +76,7 @@ def drv_cfg(cid):
     c = CFGS[cid]
     return {"rtmpSubs": c["RtmpSubs"], "flvSubs": c["FlvSubs"], "gopNumR": c["GopNumR"], "gopNumF": c["GopNumF"],
             "capR": c["CapR"], "capF": c["CapF"], "mwBytes": c["Mw"] * 1000, "record": c["Record"], "ws": c["ws"],
-            "lenMode": c["lenMode"], "pushSubs": c.get("PushSubs", [])}
+            "lenMode": c["lenMode"], "pushSubs": c.get("PushSubs", []), "httpsOnly": c.get("httpsOnly", False)}
 
 
 def behaviours(res):
